@@ -913,8 +913,9 @@ class TreeTransform(Generic[TreeFnT]):
         continue
       non_dict_keys, dict_keys = mit.partition(_is_dict, fn.output_keys)
       # Aggregate and Assign/Apply Ops are separated into different transforms.
-      # The base TreeFn means this is an Apply Op.
-      if type(fn) is tree_fns.TreeFn:  # pylint: disable=unidiomatic-typecheck
+      # The base TreeFn means this is an Apply Op. Like Apply, Select replaces
+      # the inputs with its outputs, so the keys before it are gone.
+      if type(fn) is tree_fns.TreeFn or isinstance(fn, tree_fns.Select):  # pylint: disable=unidiomatic-typecheck
         result = set()
       result.update(itertools.chain(non_dict_keys, *dict_keys))
     return result
